@@ -312,7 +312,8 @@ def run(ctx):
     cli_writep8(ctx, open(os.path.join(core.VERIF, 'fixtures', 'lua', 'every_node.lua'), 'rb').read())
     ctrl = [('ctrl%d' % b, b'x=1 -- ' + bytes([b]) + b' glyph on an ascii line\ns="' + bytes([b]) + b'"\n') for b in list(range(16, 32)) + [127, 1, 9, 128, 255]]
     ws = [('trailing-ws', b'local m={}  \nm.x=1\t\nreturn m  '), ('trailing-ws-nl', b'local m={}\nreturn m \t\n'), ('trailing-cr', b'local m={}\r\nreturn m\r\n'),
-          ('blank-tail', b'm=1\n\n\n'), ('indent', b'  m=1\n\tn=2\n'), ('update60', b'function _update60() end\n'), ('update60-nonl', b'function _update60() t=1 end')]
+          ('blank-tail', b'm=1\n\n\n'), ('indent', b'  m=1\n\tn=2\n'), ('update60', b'function _update60() end\n'), ('update60-nonl', b'function _update60() t=1 end'),
+          ('multiline-tail-nonl', b'x=[[a\nb]]'), ('cont-tail-nonl', b's="a\\\nb"'), ('comment-tail-nonl', b'y=1 --[[c\nd]]'), ('comment-only-tail', b'y=1\n-- end')]
     cart_copies(ctx, ctrl + ws + [(n, s_) for n, s_ in srcs if len(s_) < 5000] + gen[:(30 if ctx.quick else 300)])
     # canaries: a dropped byte outside a literal, a changed byte inside one
     base = b'x="a\\65b" -- c\ny=2\n'
